@@ -1727,6 +1727,40 @@ impl<'a> VisitMut for Rules<'a> {
                 return;
             }
         }
+        if self.ctx.on("R64") {
+            // R64: `A.into_iter().flatten().collect()` over a Vec<Option<T>> -> loop that moves the elements out in order and pushes the payload of
+            // every `Some` (std: Option is an iterator over zero or one item; flatten concatenates in order)
+            if let syn::Expr::MethodCall(col) = e {
+                if col.method == "collect" && col.args.is_empty() {
+                    if let syn::Expr::MethodCall(fl) = &*col.receiver {
+                        if fl.method == "flatten" && fl.args.is_empty() {
+                            if let syn::Expr::MethodCall(it) = &*fl.receiver {
+                                if it.method == "into_iter" && it.args.is_empty() {
+                                    let a = (*it.receiver).clone();
+                                    let k = self.ctx.fresh();
+                                    let nn = syn::Ident::new(&format!("vx_n{}", k), proc_macro2::Span::call_site());
+                                    let ii = syn::Ident::new(&format!("vx_i{}", k), proc_macro2::Span::call_site());
+                                    let oo = syn::Ident::new(&format!("vx_out{}", k), proc_macro2::Span::call_site());
+                                    let ss = syn::Ident::new(&format!("vx_src{}", k), proc_macro2::Span::call_site());
+                                    *e = syn::parse_quote!({
+                                        let mut #oo = Vec::new();
+                                        let #ss = #a;
+                                        let #nn = #ss.len();
+                                        for #ii in 0..#nn {
+                                            match vx_vec_take(&#ss, #ii) { Some(vx_fl_v) => { #oo.push(vx_fl_v); } None => {} }
+                                        }
+                                        #oo
+                                    });
+                                    self.ctx.used("R64");
+                                    syn::visit_mut::visit_expr_mut(self, e);
+                                    return;
+                                }
+                            }
+                        }
+                    }
+                }
+            }
+        }
         if self.ctx.on("R60") {
             // R60: `A.iter().enumerate().filter(|(i, a)| C).map(|(j, b)| E).collect()` -> index loop: for every position in order, if C holds for
             // (&k, &&A[k]) the value E for (k, &A[k]) is pushed (std definitions of enumerate / filter / map / collect; filter sees references to the items)
@@ -2078,7 +2112,11 @@ impl<'a> VisitMut for Rules<'a> {
                     let nn = syn::Ident::new(&format!("vx_n{}", k), proc_macro2::Span::call_site());
                     let ii = syn::Ident::new(&format!("vx_i{}", k), proc_macro2::Span::call_site());
                     let vv = syn::Ident::new(&format!("vx_v{}", k), proc_macro2::Span::call_site());
-                    let recv = (*fl.expr).clone();
+                    // `for x in V.into_iter()` is `for x in V`
+                    let recv: syn::Expr = match &*fl.expr {
+                        syn::Expr::MethodCall(it) if it.method == "into_iter" && it.args.is_empty() => (*it.receiver).clone(),
+                        other => other.clone(),
+                    };
                     let pat = fl.pat.clone();
                     let stmts = &fl.body.stmts;
                     let label = fl.label.clone();
